@@ -80,7 +80,7 @@ struct tranposed_view_fn
     template <typename View>
     auto operator()(View const& src) const -> result_type
     {
-        return result_type{tranposed_view(src)};
+        return result_type{transposed_view(src)};
     }
 };
 
